@@ -116,6 +116,11 @@ type Call struct {
 	BodyClosed  atomic.Bool
 	Body        []byte // full intended body
 	FailAt      int
+	// StallAt > 0: the body blocks after StallAt-1 bytes; BodyUnblockedNs: when that read
+	// returned (-1: never). Short > 0: the body ended (cleanly) that many bytes early.
+	StallAt          int
+	BodyUnblockedNs  atomic.Int64
+	Short            int
 	CtxDoneNs   int64 // virtual time at which the call saw ctx.Done (-1 if not)
 	CtxErr      string
 	Completed   bool
@@ -556,6 +561,12 @@ type failReader struct {
 	call *Call
 	// closeErr: Close reports an error (after the fact: every byte has been delivered)
 	closeErr bool
+	// stall: block after this many bytes until ctx ends or the body is closed; <0 never
+	stall  int
+	ctx    context.Context
+	closed chan struct{}
+	once   sync.Once
+	now    func() int64
 }
 
 var ErrBody = errors.New("origin: injected body read failure")
@@ -564,12 +575,28 @@ func (r *failReader) Read(p []byte) (int, error) {
 	if r.fail >= 0 && r.pos >= r.fail {
 		return 0, ErrBody
 	}
+	if r.stall >= 0 && r.pos >= r.stall {
+		var err error
+		select {
+		case <-r.ctx.Done():
+			err = context.Cause(r.ctx)
+		case <-r.closed:
+			err = ErrBodyClosed
+		}
+		if r.call != nil && r.call.BodyUnblockedNs.Load() < 0 {
+			r.call.BodyUnblockedNs.Store(r.now())
+		}
+		return 0, err
+	}
 	if r.pos >= len(r.data) {
 		return 0, io.EOF
 	}
 	lim := len(r.data)
 	if r.fail >= 0 && r.fail < lim {
 		lim = r.fail
+	}
+	if r.stall >= 0 && r.stall < lim {
+		lim = r.stall
 	}
 	n := copy(p, r.data[r.pos:lim])
 	r.pos += n
@@ -579,6 +606,9 @@ func (r *failReader) Close() error {
 	if r.call != nil {
 		r.call.BodyClosed.Store(true)
 	}
+	if r.closed != nil {
+		r.once.Do(func() { close(r.closed) })
+	}
 	if r.closeErr {
 		return ErrBodyClose
 	}
@@ -586,6 +616,7 @@ func (r *failReader) Close() error {
 }
 
 var ErrLegacyCancel = errors.New("net/http: request canceled (Request.Cancel channel closed)")
+var ErrBodyClosed = errors.New("origin: read on closed response body")
 var ErrBodyClose = errors.New("origin: injected body close failure")
 
 var tRe = regexp.MustCompile(`\$([TRAJP])([+-][0-9]+)`)
@@ -685,6 +716,7 @@ func (o *origin) RoundTrip(req *http.Request) (*http.Response, error) {
 		Method: req.Method, URL: effectiveURL(req), Header: canonicalHeader(req.Header), Cond: cond,
 		Reply: rp, Kind: rp.Kind, CtxDoneNs: -1, FailAt: rp.Body.FailAt,
 	}
+	call.BodyUnblockedNs.Store(-1)
 	if dl, ok := req.Context().Deadline(); ok {
 		call.HasDeadline = true
 		call.DeadlineNs = int64(dl.Sub(w.t0))
@@ -816,7 +848,20 @@ func (o *origin) RoundTrip(req *http.Request) (*http.Response, error) {
 	if rp.Body.FailAt > 0 {
 		fail = rp.Body.FailAt - 1
 	}
-	var rd io.ReadCloser = &failReader{data: body, fail: fail, call: call, closeErr: rp.Body.CloseErr}
+	stall := -1
+	if rp.Body.StallAt > 0 && body != nil {
+		stall = min(rp.Body.StallAt-1, len(body))
+		call.StallAt = stall + 1
+	}
+	if rp.Body.ShortBy > 0 && len(body) > 0 && (rp.Shape == "" || rp.Shape == "cl") {
+		call.Short = min(rp.Body.ShortBy, len(body))
+	}
+	fr := &failReader{data: body, fail: fail, call: call, closeErr: rp.Body.CloseErr, stall: stall, ctx: ctx, closed: make(chan struct{}), now: w.now}
+	if call.Short > 0 {
+		fr.data = body[:len(body)-call.Short] // fewer bytes than the Content-Length below announces, then EOF
+		call.Body = fr.data                   // what the origin delivered is what a client can get
+	}
+	var rd io.ReadCloser = fr
 	switch rp.Shape {
 	case "", "cl":
 		resp.ContentLength = int64(len(body))
@@ -891,7 +936,9 @@ func effectiveURL(req *http.Request) string {
 	}
 	if u.Opaque != "" {
 		raw := u.Scheme + ":" + u.Opaque
-		if !strings.HasPrefix(u.Opaque, "//") {
+		if strings.Contains(u.Opaque, "://") && !strings.HasPrefix(u.Opaque, "/") {
+			raw = u.Opaque // absolute form: the URI itself
+		} else if !strings.HasPrefix(u.Opaque, "//") {
 			// (URL.Host holds the decoded host: "[fe80::1%eth0]" is written "[fe80::1%25eth0]")
 			raw = (&url.URL{Scheme: u.Scheme, Host: u.Host}).String() + u.Opaque
 		}
@@ -1390,6 +1437,11 @@ func (w *World) doReqMode(rt http.RoundTripper, step int, rq *Req, concurrent bo
 		if u.Opaque == "" {
 			u.Opaque = "/"
 		}
+		if rq.OpaqueForm == 3 {
+			// the absolute form a client puts on the request line for a proxy: the whole URI
+			// (query aside) in Opaque
+			u.Opaque = (&url.URL{Scheme: u.Scheme, Host: u.Host}).String() + u.Opaque
+		}
 		if rq.OpaqueForm == 2 {
 			// (URL.Host is the decoded host: a zone identifier is written "%25" again)
 			u.Opaque = (&url.URL{Host: u.Host}).String() + u.Opaque
@@ -1741,7 +1793,7 @@ func (w *World) corruptFile(c *Corrupt) {
 
 // BodyFails reports whether reading the reply body to the end yields the injected error.
 func (c *Call) BodyFails() bool {
-	return c.FailAt > 0 && c.Body != nil && c.FailAt-1 <= len(c.Body)
+	return (c.FailAt > 0 && c.Body != nil && c.FailAt-1 <= len(c.Body)) || c.StallAt > 0
 }
 
 // controlLoop is the scheduler of the controlled concurrent phase: whenever every goroutine
